@@ -12,7 +12,7 @@
                       `branchFlatten_rows`, `reshapeFeatOld_mixes_rows` (negative result about the pinned snapshot)
   * branch variants:  `meshgrid_eq`, `functionSet_rows`, `collection_rows`, `branch_variants_agree`
   * fast trunk path:  `fastLinear_eq_plain`, `fastLinear_r2`, `fastNet_eq_plainNet`, `fastNet_r2`,
-                      `forward_fast_eq_plain`, `fastLinear_ne_plain_unshared` (the precondition is needed)
+                      `forward_fast_eq_plain`, `forward_fast_eq_plain_r2`, `fastLinear_ne_plain_unshared` (the precondition is needed)
   * coded backward:   `vjp_input`, `vjp_weight`, `vjp_bias` (exact vector-Jacobian products of the affine layer),
                       `gradWeight_eq_plain`, `gradInput_adjoint` (second order)
   Non-vacuity examples (concrete data meeting the hypotheses) are collected at the end of the file.
@@ -309,6 +309,94 @@ theorem fastLinear_ne_plain_unshared :
     plainLinear (K := Int) ⟨[[1]], none⟩ (.r3 [[[1]], [[2]]]) = .ok (.r3 [[[1]], [[2]]]) := by
   constructor <;> rfl
 
+
+/-! ### rank-2 trunk input: the whole DeepONet -/
+
+section
+variable {K : Type} [Add K] [Mul K] [OfNat K 0]
+
+/-- add a leading axis of length 1 -/
+def unsq : T23 K → T23 K
+  | .r2 y => .r3 [y]
+  | .r3 y => .r3 y
+
+theorem plainNet_unsq (act : K → K) : ∀ (layers : List (Layer K)) (x : List (List K)),
+    fcNet plainLinear act layers (.r3 [x]) = (fcNet plainLinear act layers (.r2 x)).map unsq
+  | [], _ => by simp [fcNet, Except.map]
+  | [l], x => by simp [fcNet, plainLinear, T23.map, Except.map, unsq]
+  | l :: l' :: ls, x => by
+    simp only [fcNet, plainLinear, T23.map, List.map_cons, List.map_nil, bind, Except.bind]
+    exact plainNet_unsq act (l' :: ls) _
+
+/-- length of one output row of a layer whose bias (if any) is as long as the weight has rows -/
+theorem affineRow_length (L : Layer K) (hb : ∀ b, L.b = some b → b.length = L.W.length) (x : List K) :
+    (affineRow L x).length = L.W.length := by
+  cases L with
+  | mk W b =>
+    cases b with
+    | none => simp [affineRow]
+    | some b => simp [affineRow, vadd, hb b rfl]
+
+/-- all rows of the output of a plain network have the width of the last layer -/
+theorem plainNet_rows (act : K → K) (n : Nat) : ∀ (layers : List (Layer K)) (x y : List (List K)),
+    (∀ l ∈ layers.getLast?, l.W.length = n ∧ ∀ b, l.b = some b → b.length = l.W.length) →
+    fcNet plainLinear act layers (.r2 x) = .ok (.r2 y) → ∀ r ∈ y, r.length = n
+  | [], _, _, _, h => by simp [fcNet] at h
+  | [l], x, y, hl, h => by
+    simp only [fcNet, plainLinear, T23.map, Except.ok.injEq, T23.r2.injEq] at h
+    subst h
+    intro r hr
+    obtain ⟨xr, _, rfl⟩ := List.mem_map.1 hr
+    have := hl l (by simp)
+    rw [affineRow_length l this.2, this.1]
+  | l :: l' :: ls, x, y, hl, h => by
+    simp only [fcNet, plainLinear, T23.map, bind, Except.bind] at h
+    exact plainNet_rows act n (l' :: ls) _ y (by simpa using hl) h
+
+theorem plainNet_r2_shape (act : K → K) : ∀ (layers : List (Layer K)) (x : List (List K)),
+    (∃ y, fcNet plainLinear act layers (.r2 x) = .ok (.r2 y)) ∨ (∃ e, fcNet plainLinear act layers (.r2 x) = .error e)
+  | [], _ => by simp [fcNet]
+  | [l], x => by simp [fcNet, plainLinear, T23.map]
+  | l :: l' :: ls, x => by
+    simp only [fcNet, plainLinear, T23.map, bind, Except.bind]
+    exact plainNet_r2_shape act (l' :: ls) _
+
+
+theorem trunkReshape_unsq (d neurons : Nat) (hf : finalizeOk d neurons = true) (hn : 0 < neurons)
+    (y : List (List K)) (hy : ∀ r ∈ y, r.length = neurons) :
+    trunkReshape d neurons (.r3 [y]) = trunkReshape d neurons (.r2 y) := by
+  have hf' := hf
+  simp only [finalizeOk, Bool.and_eq_true, bne_iff_ne, ne_eq, decide_eq_true_eq] at hf'
+  have hdm : d * (neurons / d) = neurons := Nat.mul_div_cancel' (Nat.dvd_of_mod_eq_zero hf'.2)
+  have hall : ([y].all (·.all (fun row => decide (row.length = d * (neurons / d))))) = true := by
+    simp only [List.all_cons, List.all_nil, Bool.and_true, List.all_eq_true, decide_eq_true_eq, hdm]
+    exact hy
+  simp only [trunkReshape, hf, Bool.not_true, Bool.false_eq_true, if_false, hall, if_true,
+    reshapeFeat_rows d neurons hf hn y hy, bind, Except.bind, pure, Except.pure, List.map_cons, List.map_nil]
+
+/-- the whole DeepONet on a rank-2 trunk input (the usual `(locations, dim)` batch): fast trunk = plain
+    trunk, for every architecture whose last trunk layer produces `neurons` features -/
+theorem forward_fast_eq_plain_r2 (act : K → K) (d neurons : Nat) (trunk branch : List (Layer K)) (inputDim : Nat)
+    (x : List (List K)) (fb : List (List (List K)))
+    (hf : finalizeOk d neurons = true) (hn : 0 < neurons)
+    (hl : ∀ l ∈ trunk.getLast?, l.W.length = neurons ∧ ∀ b, l.b = some b → b.length = l.W.length) :
+    forward true act d neurons trunk branch inputDim (.r2 x) fb =
+    forward false act d neurons trunk branch inputDim (.r2 x) fb := by
+  unfold forward
+  simp only [if_true, Bool.false_eq_true, if_false]
+  refine bind_congr fun bin => bind_congr fun bout => ?_
+  cases bout with
+  | r3 _ => rfl
+  | r2 rows =>
+    refine bind_congr fun bfeat => ?_
+    rw [fastNet_r2, plainNet_unsq]
+    rcases plainNet_r2_shape act trunk x with ⟨y, hy⟩ | ⟨e, he⟩
+    · rw [hy]
+      simp only [Except.map, bind, Except.bind, unsq]
+      rw [trunkReshape_unsq d neurons hf hn y (plainNet_rows act neurons trunk x y hl hy)]
+    · rw [he]; rfl
+
+end
 
 /-! ## algebra: inner products, the coded backward is the exact VJP -/
 
@@ -888,6 +976,11 @@ example : fcNet fastLinear (fun z => z * z) [L1, L2] (.r3 (List.replicate 2 x0))
 example : forward true (fun z => z * z) 1 2 [L1, ⟨[[1, 0, 1], [0, 1, 0]], none⟩]
       [⟨[[1, 1]], some [0]⟩, ⟨[[1], [2]], none⟩] 2 (.r3 (List.replicate 2 x0)) [[[1], [2]], [[1], [3]]] =
     .ok [[[477], [522]], [[848], [928]]] := by rfl
+
+/-- `forward_fast_eq_plain_r2`: the same DeepONet on the rank-2 batch of locations; hypotheses satisfiable -/
+example : forward true (fun z => z * z) 1 2 [L1, ⟨[[1, 0, 1], [0, 1, 0]], none⟩]
+      [⟨[[1, 1]], some [0]⟩, ⟨[[1], [2]], none⟩] 2 (.r2 x0) [[[1], [2]], [[1], [3]]] =
+    .ok [[[477], [522]], [[848], [928]]] ∧ finalizeOk 1 2 = true := ⟨by rfl, by decide⟩
 
 /-- `vjp_input`: the hypotheses hold for concrete data and the gradient term is not zero -/
 example : dot3 g0 (layerOut L1 (tadd [x0, x0] D0)) = dot3 g0 (layerOut L1 [x0, x0]) + dot3 (gradInput 2 L1.W g0) D0 ∧
